@@ -1551,6 +1551,7 @@ class SortFrame(Native):
     def __init__(self, items, clo, mode, stable, ret, finish):
         self.items, self.clo, self.mode, self.stable, self.ret, self.finish = items, clo, mode, stable, ret, finish
         self.i, self.j, self.wait, self.keys = 1, 1, None, None
+        self.target = None            # in-place sorts: reference to the slice being sorted
 
     def step(self, m, st):
         if self.items is None: raise Inconclusive('SortFrame stepped before its input was collected')
@@ -1562,7 +1563,13 @@ class SortFrame(Native):
             self.wait = None
         n = len(self.items)
         if self.i >= n:
-            st.frames.pop(); m.deliver(st, self.ret, self.finish(self.items)); return
+            st.frames.pop()
+            tgt = getattr(self, 'target', None)
+            if tgt is not None:
+                # in-place sort: the target reference is part of the frame and is re-homed when the state is cloned at a fork
+                # (a python closure over the reference would keep pointing into the state before the fork)
+                sv(tgt).f[:] = self.items; m.deliver(st, self.ret, UNIT); return
+            m.deliver(st, self.ret, self.finish(self.items)); return
         if self.j == 0:
             self.i += 1; self.j = self.i; return
         a, b = self.items[self.j - 1], self.items[self.j]
@@ -1619,9 +1626,10 @@ def c_slice_sort(m, st, f, a):
     op = re.search(r'::(sort\w*)', f).group(1)
     mode = 'key' if op.endswith('_key') else ('cmp' if op.endswith('_by') else 'ord')
     v, r = seq_of(a[0])
-    def fin(items, v=None):
-        tgt = sv(r); tgt.f[:] = items; return UNIT
-    return _sort(m, st, f, a[0], a[1] if len(a) > 1 else None, mode, 'unstable' not in op, fin)
+    res = _sort(m, st, f, a[0], a[1] if len(a) > 1 else None, mode, 'unstable' not in op, None)
+    for fr in reversed(st.frames):
+        if isinstance(fr, SortFrame): fr.target = r; break
+    return res
 
 
 # ---------------------------------------------------------------------------------------------- more Vec / Rc
